@@ -84,6 +84,12 @@ pub fn unify(state: &mut TypeCheckerState, watchdog: &DynWatchdog) -> Result<()>
 
             // Get all of the inferences
             let mut inferred_expressions: VecDeque<_> = inferences.into_iter().collect();
+            #[cfg(feature = "verif-hooks")]
+            crate::verif_hooks::permute_by(
+                "unify.class_inferences",
+                inferred_expressions.make_contiguous(),
+                |e| format!("{e:?}"),
+            );
             let mut current = inferred_expressions
                 .pop_front()
                 .expect("We know there is at least one item in the expressions queue");
@@ -109,6 +115,21 @@ pub fn unify(state: &mut TypeCheckerState, watchdog: &DynWatchdog) -> Result<()>
             // Bump our polling counter
             counter += 1;
         }
+
+        #[cfg(feature = "verif-hooks")]
+        let (all_new_ty_vars, all_equalities, all_judgements) = {
+            let mut ty_vars: Vec<_> = all_new_ty_vars.into_iter().collect();
+            crate::verif_hooks::permute_by("unify.new_ty_vars", &mut ty_vars, |v| *v);
+            let mut equalities: Vec<_> = all_equalities.into_iter().collect();
+            crate::verif_hooks::permute_by("unify.equalities", &mut equalities, |e| {
+                (e.left, e.right)
+            });
+            let mut judgements: Vec<_> = all_judgements.into_iter().collect();
+            crate::verif_hooks::permute_by("unify.judgements", &mut judgements, |j| {
+                (j.tv, format!("{:?}", j.expr))
+            });
+            (ty_vars, equalities, judgements)
+        };
 
         // When we get to the end of that loop, we need to insert the new type variables
         // into the forest so we can add any inferences involving them
